@@ -210,6 +210,11 @@ Events(s) ==
     [] Model = "Psweep" ->
          { Ev(op, <<n>>) : op \in {"cuu", "cud", "cuf", "cub", "cnl", "cpl", "cha", "vpa", "ich", "dch", "ech", "il", "dl"}, n \in SweepParams }
          \cup { Ev("cup", <<n, n>>) : n \in SweepParams } \cup { Ev("decstbm", <<2, n>>) : n \in SweepParams }
+         \cup { EvS("draw", <<120>>), EvS("draw", <<WIDE>>), EvS("draw", <<120, COMB>>), EvS("draw", <<120, 121, 122>>), Ev("ht", <<>>), Ev("hts", <<>>),
+                Ev("ind", <<>>), Ev("ri", <<>>), Ev("lf", <<>>), Ev("cr", <<>>), Ev("bs", <<>>), Ev("decaln", <<>>),
+                EvM("sm", <<5>>, TRUE), EvM("sm", <<4>>, FALSE) }
+         \cup { Ev(op, <<n>>) : op \in {"el", "ed"}, n \in 0..2 } \cup (IF s.L = 1 THEN { Ev("resize", <<n, m>>) : n \in {-1, 2}, m \in {-1, 1, s.C - 1, s.C + 1} }
+                                                                          ELSE { Ev("resize", <<n, m>>) : n \in {-1, 1, s.L - 1, s.L + 1}, m \in {-1, 2} })
     [] Model = "C18all" -> { Ev("ht", <<>>) }
     [] Model \in {"C18", "C18w"} -> { Ev("ht", <<>>), Ev("hts", <<>>) } \cup { Ev("tbc", <<n>>) : n \in {-1, 0, 1, 2, 3, 4, 9999} }
     [] Model = "C06" -> { Ev(op, <<>>) : op \in {"ind", "lf", "ri"} }
